@@ -377,3 +377,68 @@ Print Assumptions C01_tie_machine_step_reset_after.
 Print Assumptions C01_tie_machine_run_finish.
 Print Assumptions C01_tie_machine_step_run_task.
 Print Assumptions C01_tie_machine_wiring.
+
+(** ---- stage 2: composition of Gen/ImpSkeleton.v with Gen/MachineWiring.v (Life/MachineImpTie.v).  The regenerated tree
+    of an Imp method is compiled to effects / waits / ONE trigger (resolved through the regenerated StateMachine) / the
+    release of the lock; [MachineImpTie.imp_run m t c s] runs it from the moment the lock is held.  What remains copied from
+    the model: [MachineImpTie.after_imp] (what the Nextline wrapper does with the returned call), see the header there. *)
+From NL Require Life.MachineImpTie.
+
+(** which trigger each Imp method fires under the lock, what precedes and follows it *)
+Theorem C01_tie_machine_imp_shapes :
+  (exists r, MachineImpTie.imp_prog "aopen"%string = Some r /\
+     MachineImpTie.split_trigger r = Some ([], FsmConfig.TInitialize, [MachineImpTie.IDo release])) /\
+  (exists r, MachineImpTie.imp_prog "run"%string = Some r /\
+     MachineImpTie.split_trigger r = Some ([], FsmConfig.TRun, [MachineImpTie.IDo release])) /\
+  (exists r, MachineImpTie.imp_prog "reset"%string = Some r /\
+     MachineImpTie.split_trigger r = Some ([], FsmConfig.TReset, [MachineImpTie.IDo release])) /\
+  (exists r a rd, MachineImpTie.imp_prog "aclose"%string = Some r /\
+     MachineTie.wait_for_run_finish_prims = Some [MachineTie.PWait a rd C_WaitRunFinished] /\
+     MachineImpTie.split_trigger r =
+       Some ([MachineImpTie.IDo (fun s => publish s PEndAll);
+              MachineImpTie.IWait (fun s => if MachineImpTie.state_is "running"%string s then a s else MachineTie.WPass) rd C_WaitRunFinished],
+             FsmConfig.TClose,
+             [MachineImpTie.IDo (fun s => publish s PEndAll); MachineImpTie.IDo release])) /\
+  MachineImpTie.nextline_close_tail = Some [MachineImpTie.IDo close_cont].
+Proof. exact MachineImpTie.imp_method_shapes. Qed.
+
+(** the trigger calls of the regenerated Imp pass exactly the event data the tie assumes (reset: reset_options=; others none) *)
+Theorem C01_tie_machine_imp_event_data :
+  forallb MachineImpTie.call_agrees MachineWiring.imp_trigger_calls = true /\
+  map (fun x => fst (fst (fst x))) MachineWiring.imp_trigger_calls = ["run"; "reset"; "aopen"; "aclose"]%string.
+Proof. exact MachineImpTie.imp_event_data. Qed.
+
+(** the model's first segment under the lock = the regenerated Imp method (lock held; trigger; release), all states *)
+Theorem C01_tie_machine_imp_aopen : forall s t c, enter_start s t c = MachineImpTie.imp_run "aopen"%string t c s.
+Proof. exact MachineImpTie.imp_run_aopen. Qed.
+Theorem C01_tie_machine_imp_reset : forall s t o, enter_reset s t o = MachineImpTie.imp_run "reset"%string t (CReset o) s.
+Proof. exact MachineImpTie.imp_run_reset. Qed.
+
+(** the epilogue after the trigger, which stage 1 copied from the model, IS the regenerated rest of the Imp method *)
+Theorem C01_tie_machine_imp_epilogue_aopen : forall s t c,
+  MachineTie.epilogue t c FsmConfig.TInitialize s = MachineImpTie.derived_epilogue "aopen"%string t c s.
+Proof. exact MachineImpTie.imp_epilogue_aopen. Qed.
+Theorem C01_tie_machine_imp_epilogue_reset : forall s t c,
+  MachineTie.epilogue t c FsmConfig.TReset s = MachineImpTie.derived_epilogue "reset"%string t c s.
+Proof. exact MachineImpTie.imp_epilogue_reset. Qed.
+
+Print Assumptions C01_tie_machine_imp_shapes.
+Print Assumptions C01_tie_machine_imp_event_data.
+Print Assumptions C01_tie_machine_imp_aopen.
+Print Assumptions C01_tie_machine_imp_reset.
+Print Assumptions C01_tie_machine_imp_epilogue_aopen.
+Print Assumptions C01_tie_machine_imp_epilogue_reset.
+
+(** ---- stage 2 (3): the continuation a task stores when it parks is [api_cont] = [after_pc p] of the ONE program of the
+    trigger -- at the first park and at every later one (Life/MachineCont.v: generic in the program, needs only pairwise
+    distinct program counters, proved for every program [api_prog] produces).  With C01_tie_machine_step_* (which start
+    from [api_cont ... p]) the successive segments of the model follow the one program derived from the regenerated code. *)
+From NL Require Life.MachineCont.
+Theorem C01_tie_machine_continuations : forall t c tr src k, MachineTie.api_prog t c tr src = Some k ->
+  (forall s s' p k', MachineTie.run k s = (s', MachineTie.KPark p k') -> k' = MachineTie.api_cont t c tr src p) /\
+  (forall p s s' p2 k2, MachineTie.run (MachineTie.api_cont t c tr src p) s = (s', MachineTie.KPark p2 k2) ->
+     k2 = MachineTie.api_cont t c tr src p2) /\
+  (forall p a r q rest s s' p2 k2, MachineTie.api_cont t c tr src p = MachineTie.PWait a r q :: rest ->
+     MachineTie.run rest s = (s', MachineTie.KPark p2 k2) -> k2 = MachineTie.api_cont t c tr src p2).
+Proof. exact MachineCont.api_continuations. Qed.
+Print Assumptions C01_tie_machine_continuations.
